@@ -331,6 +331,129 @@ impl<'a> PoolSet<'a> {
     }
 }
 
+/// Verification wrappers exposing the pool internals to an external harness.
+#[cfg(feature = "verif")]
+pub mod verif {
+    use std::ptr::NonNull;
+
+    use super::{CLASS_COUNT, Pool, PoolSet, SLOT_COUNTS, SLOT_SIZES, size_class};
+    use crate::arena::{Arena, ArenaString};
+
+    /// (live, free, never-used, capacity) of one pool.
+    pub type Conservation = (u32, u32, u32, u32);
+
+    #[must_use]
+    pub fn class_count() -> u32 {
+        CLASS_COUNT
+    }
+
+    #[must_use]
+    pub fn slot_size(class: u32) -> u32 {
+        SLOT_SIZES[class as usize]
+    }
+
+    #[must_use]
+    pub fn slot_count(class: u32) -> u32 {
+        SLOT_COUNTS[class as usize]
+    }
+
+    #[must_use]
+    pub fn class_of(size: u32) -> Option<u32> {
+        size_class(size)
+    }
+
+    fn conservation(pool: &Pool) -> Conservation {
+        (
+            pool.live_count.get(),
+            pool.free.len(),
+            pool.block.slot_count - pool.block.bump.get(),
+            pool.block.slot_count,
+        )
+    }
+
+    fn block_range(pool: &Pool) -> (usize, usize) {
+        let base = pool.block.base.as_ptr() as usize;
+        (base, base + pool.block.slot_size as usize * pool.block.slot_count as usize)
+    }
+
+    /// A single fixed-size pool with a caller-chosen geometry.
+    pub struct SinglePool(Pool);
+
+    impl SinglePool {
+        #[must_use]
+        pub fn new(arena: &Arena, slot_size: u32, slot_count: u32) -> Self {
+            Self(Pool::new(arena, slot_size, slot_count))
+        }
+
+        #[must_use]
+        pub fn alloc(&self) -> Option<NonNull<[u8]>> {
+            self.0.alloc()
+        }
+
+        /// # Safety
+        /// `ptr` must be a live slot of this pool with no outstanding references.
+        pub unsafe fn dealloc(&self, ptr: NonNull<u8>) {
+            unsafe { self.0.dealloc(ptr) }
+        }
+
+        #[must_use]
+        pub fn contains(&self, ptr: *const u8) -> bool {
+            self.0.contains(ptr)
+        }
+
+        #[must_use]
+        pub fn conservation(&self) -> Conservation {
+            conservation(&self.0)
+        }
+
+        #[must_use]
+        pub fn block_range(&self) -> (usize, usize) {
+            block_range(&self.0)
+        }
+    }
+
+    /// The real 20-class pool set used by the runtime.
+    pub struct Set<'a>(PoolSet<'a>);
+
+    impl<'a> Set<'a> {
+        #[must_use]
+        pub fn new(arena: &'a Arena) -> Self {
+            Self(PoolSet::new(arena))
+        }
+
+        #[must_use]
+        pub fn alloc(&self, size: u32) -> NonNull<[u8]> {
+            self.0.alloc(size)
+        }
+
+        /// # Safety
+        /// Same contract as the crate-internal `PoolSet::dealloc`.
+        pub unsafe fn dealloc(&self, ptr: NonNull<u8>, size: u32) {
+            unsafe { self.0.dealloc(ptr, size) }
+        }
+
+        #[must_use]
+        pub fn contains(&self, ptr: *const u8) -> bool {
+            self.0.contains(ptr)
+        }
+
+        #[must_use]
+        pub fn alloc_str(&self, s: &str) -> ArenaString<'a> {
+            self.0.alloc_str(s)
+        }
+
+        #[must_use]
+        pub fn conservation(&self, class: u32) -> Conservation {
+            conservation(&self.0.pools[class as usize])
+        }
+
+        #[must_use]
+        pub fn block_range(&self, class: u32) -> (usize, usize) {
+            block_range(&self.0.pools[class as usize])
+        }
+    }
+}
+
 #[cfg(test)]
 mod tests {
     use super::*;
